@@ -48,6 +48,22 @@ fn parse_line(line: &str) -> Result<Option<(IpAddr, HashSet<DomainName>)>, Error
         }
 
         state = match (&state, octet) {
+            // a comment can start directly after a name: the name still counts
+            (State::ReadingName { start }, '#') => {
+                let name_str = &line[*start..i];
+                match DomainName::from_relative_dotted_string(&DomainName::root_domain(), name_str)
+                {
+                    Some(name) => {
+                        new_names.insert(name);
+                    }
+                    None => {
+                        return Err(Error::CouldNotParseName {
+                            name: name_str.into(),
+                        })
+                    }
+                }
+                State::CommentToEndOfLine
+            }
             (_, '#') => State::CommentToEndOfLine,
             (State::CommentToEndOfLine, _) => break,
 
